@@ -6,11 +6,15 @@
      <id> <N> <na> <fixed 0|1> <ranks: na ints, comma separated> rand <count> <seed> <spur_percent>
      <id> <N> <na> <fixed 0|1> <ranks> cover <maxcount> <seed>
      <id> <N> <na> <fixed 0|1> <ranks> one <moves, comma separated: t or 1000+t>
+     <id> <N> <na> <fixed 0|1> <ranks> longest
    lt a b := rank[a] < rank[b]   (rank = order of the real residuals)
    stdout:
      S <id> <k> <fin|dead|cut|bad> <chosen|-> <feasible 0|1|-> | <tid:LABEL ...>
         LABEL: C<k> L U W R B J<tid> I (internal, no pthread call) X (spurious wake-up of tid)
      info <id> states <n> edges <n> deadlocks <n> races <n> races_common <n> early_reads <n> badresults <n> spec <a> <f>
+     longest <id> <len|cycle> states <n> | <a longest schedule of thread steps from init, comma separated>
+        (exact, by memoised depth-first search of the step-only graph; "cycle" if that graph is not acyclic — a TEST of
+         C12_terminates: len must be <= B0 N na)
 *)
 open Handshakemodel
 
@@ -131,6 +135,31 @@ let () =
            for k = 0 to cnt - 1 do emit k (List.rev arr.(k)) 0 done;
            Printf.printf "info %s states %d edges %d deadlocks %d races %d races_common %d early_reads %d badresults %d spec %s\n"
              id !nstates !nedges !dead !races !races_c !early !badres spec_str
+         | "longest", [] ->
+           let key s = Marshal.to_string (observe nN s) [] in
+           (* memo: key -> (length of the longest step-only path from the state, first thread of such a path); -2 = on the stack *)
+           let memo : (string, int * int) Hashtbl.t = Hashtbl.create 4096 in
+           let cyclic = ref false in
+           let rec longest s =
+             let k = key s in
+             match Hashtbl.find_opt memo k with
+             | Some (-2, _) -> cyclic := true; 0
+             | Some (l, _) -> l
+             | None ->
+               Hashtbl.replace memo k (-2, -1);
+               let best = ref 0 and bt = ref (-1) in
+               List.iter (fun t -> match stepf s t with
+                   | None -> ()
+                   | Some s' -> let l = 1 + longest s' in if l > !best then begin best := l; bt := t end) tids;
+               Hashtbl.replace memo k (!best, !bt); !best in
+           let l = longest init in
+           let buf = Buffer.create 256 in
+           let rec path s = match Hashtbl.find_opt memo (key s) with
+             | Some (_, t) when t >= 0 ->
+               (match stepf s t with Some s' -> Buffer.add_string buf (string_of_int t); Buffer.add_char buf ','; path s' | None -> ())
+             | _ -> () in
+           if not !cyclic then path init;
+           Printf.printf "longest %s %s states %d | %s\n" id (if !cyclic then "cycle" else string_of_int l) (Hashtbl.length memo) (Buffer.contents buf)
          | _ -> Printf.printf "error %s bad mode\n" id);
         flush stdout
       | _ -> ()
